@@ -3,6 +3,7 @@ From Coq Require Import List ZArith QArith Bool Lia.
 From Jade Require Import Base Stats.
 From Jade.Gen Require Import ReportsGen.
 Import ListNotations.
+Set Default Timeout 60.
 Open Scope Z_scope.
 
 (* ---------- specification vocabulary ---------- *)
